@@ -70,6 +70,11 @@ pub enum ResolvedRecord {
         rrs: Vec<ResourceRecord>,
         soa_rr: Option<ResourceRecord>,
     },
+    /// The name is at or beneath a delegation point of one of our
+    /// authoritative zones, and we have been asked not to recurse: there is
+    /// no answer, only the `NS` records of the delegation, which belong in
+    /// the AUTHORITY section of a non-authoritative response.
+    Referral { ns_rrs: Vec<ResourceRecord> },
 }
 
 impl ResolvedRecord {
@@ -78,6 +83,7 @@ impl ResolvedRecord {
             ResolvedRecord::Authoritative { rrs, .. } => rrs,
             ResolvedRecord::AuthoritativeNameError { .. } => Vec::new(),
             ResolvedRecord::NonAuthoritative { rrs, .. } => rrs,
+            ResolvedRecord::Referral { .. } => Vec::new(),
         }
     }
 
@@ -86,6 +92,7 @@ impl ResolvedRecord {
             ResolvedRecord::Authoritative { soa_rr, .. } => Some(soa_rr),
             ResolvedRecord::AuthoritativeNameError { soa_rr } => Some(soa_rr),
             ResolvedRecord::NonAuthoritative { soa_rr, .. } => soa_rr.into(),
+            ResolvedRecord::Referral { .. } => None,
         }
     }
 }
